@@ -33,7 +33,22 @@ def corpus_cases(ctx, prop):
         yield c
 
 
-def gen_cases(ctx, n, mutate_p=0.5, model_filter=None, type_filter=None, post=None, prop=None):
+def add_alias(rng, doc):
+    """replace a node by an alias to an earlier, equal-kind node (see props/c18.py)"""
+    ps = G.all_paths(doc)
+    pairs = [(i, j) for i in range(1, len(ps)) for j in range(i + 1, len(ps))
+             if ps[j][:len(ps[i])] != ps[i] and ps[i][:len(ps[j])] != ps[j]]
+    if not pairs:
+        return None
+    scal = [(i, j) for i, j in pairs if G.get_at_path(doc, ps[i])[0] == 's' and G.get_at_path(doc, ps[j])[0] == 's']
+    i, j = rng.choice(scal) if (scal and rng.random() < 0.7) else rng.choice(pairs)
+    target = G.get_at_path(doc, ps[i])
+    if target[0] in ('&', '*'):
+        return None
+    return G.replace_at(G.replace_at(doc, ps[j], lambda d: ('*', 'y1')), ps[i], lambda d: ('&', 'y1', target))
+
+
+def gen_cases(ctx, n, mutate_p=0.5, model_filter=None, type_filter=None, post=None, prop=None, alias_p=0.08):
     """yield built+run cases (the corpus of `prop` first)"""
     if prop:
         for c in corpus_cases(ctx, prop):
@@ -56,10 +71,14 @@ def gen_cases(ctx, n, mutate_p=0.5, model_filter=None, type_filter=None, post=No
             doc = G.gen_doc(rng, spec, t)
             desc = None
             if rng.random() < mutate_p:
-                doc, desc = G.mutate(rng, doc)
+                doc, desc = G.mutate(rng, doc, spec)
                 if rng.random() < 0.15:
-                    doc, d2 = G.mutate(rng, doc)
+                    doc, d2 = G.mutate(rng, doc, spec)
                     desc = (desc, d2)
+            if alias_p and rng.random() < alias_p:
+                doc2 = add_alias(rng, doc)
+                if doc2 is not None:
+                    doc, desc = doc2, (desc, 'alias')
             c = L.build_case(rng, yaml, yatiml, spec, t, doc, desc)
             L.run_case(c, yaml)
         except G.GenFail:
@@ -94,8 +113,12 @@ def correspond(ctx, cases, label='load'):
 def record_distribution(ctx, c):
     ctx.count('outcome:' + c.real_out[0])
     if c.desc:
-        d = c.desc[0] if isinstance(c.desc[0], str) else c.desc[0][0]
-        ctx.count('mutation:' + d)
+        d = c.desc
+        while isinstance(d, tuple) and d and not isinstance(d[0], str):
+            d = d[0]
+        ctx.count('mutation:' + (d[0] if isinstance(d, tuple) and d else 'none'))
+        if 'alias' in repr(c.desc):
+            ctx.count('with_alias')
     else:
         ctx.count('mutation:none')
     for cl in c.spec:
